@@ -704,8 +704,9 @@ func init() {
 
 // c10Commit: the byte layout of the three certificate commitments, including how the per-exit lists are built:
 // one element per exit, in order, for the whole range, each in storage of its own.
-func c10Commit(c *core.Ctx) {
-	const rule = "C10-commit"
+func c10Commit(c *core.Ctx) { commitRule(c, "C10-commit", nil) }
+
+func commitRule(c *core.Ctx, rule string, only map[string]bool) {
 	idx := "[(loop{const(-1)} + const(1))]"
 	ibes := "c.ImportedBridgeExits"
 	type listWant struct{ over, elem string }
@@ -738,6 +739,9 @@ func c10Commit(c *core.Ctx) {
 			{"c.BridgeExits", "RAW32((*agglayer/types.BridgeExit).Hash(c.BridgeExits" + idx + "))"},
 			{ibes, "RAW32((*agglayer/types.ImportedBridgeExit).Hash(" + ibes + idx + "))"}}},
 	} {
+		if only != nil && !only[w.fn] {
+			continue
+		}
 		fn := c.MustFn(rule, "agglayer/types", "Certificate", w.fn)
 		if fn == nil {
 			continue
